@@ -576,8 +576,22 @@ struct ReplyWorld : World {
 				if (!use_sync) break;
 				// wait at most `timeout` simulated milliseconds for replies: the call must come back within that time whatever is (not) on the wire
 				int timeout = (op.c % 3) == 0 ? 0 : (int) (op.c % 5000); int64_t t0 = simio::S.now_ms; uint64_t forever0 = simio::S.poll_block_forever;
+				// (sometimes whatever has arrived is first loaded into the read buffer by a plain poll for input, as an event loop does before it decides what to call)
+				if (((uint64_t) op.a & 0xc000) == 0xc000) { int pr; { Sut s; SUT_GUARD_ABORT(pr = mpt_stream_poll(P.srm, POLLIN, 0)); } log.ev("POLL %s before sync -> %d", P.name, pr); }
+				// (what the read buffer already holds before the call: a complete frame behind the decoder's position?)
+				bool complete_before = false; { const decode_queue &rq0 = P.srm->_rd; if (rq0._state.data.msg < 0 && rq0.max) for (size_t i = rq0._state.curr; i < rq0.len; ++i) if (!((const uint8_t *) rq0.base)[(rq0.off + i) % rq0.max]) { complete_before = true; break; } }
+				int cb_before = 0; for (auto &q0 : P.sent) cb_before += q0.callbacks + q0.cancelled; size_t armed_before = 0; { const command *c0 = P.con->_wait.begin(); for (long k = 0; c0 && k < P.con->_wait.length(); ++k) if (c0[k].cmd) ++armed_before; }
 				int r; { Sut s; SUT_GUARD_ABORT(r = mpt_stream_sync(P.srm, idlen, &P.con->_wait, timeout)); }
 				check_pending();
+				int cb_after = 0; for (auto &q0 : P.sent) cb_after += q0.callbacks + q0.cancelled;
+				// a complete frame that was already buffered is looked at before anything is waited for: with requests outstanding the call either hands it
+				// to a handler or says why not (a request of the peer's, an unknown id, no room) - it does not come back with 'nothing there' or wait for more
+				// (a frame may be consumed without any handler running - an unknown id - so what is judged is what the call leaves behind)
+				bool complete_after = false; { const decode_queue &rq1 = P.srm->_rd; if (rq1._state.data.msg < 0 && rq1.max) for (size_t i = rq1._state.curr; i < rq1.len; ++i) if (!((const uint8_t *) rq1.base)[(rq1.off + i) % rq1.max]) { complete_after = true; break; } }
+				size_t armed_after = 0; { const command *c1 = P.con->_wait.begin(); for (long k = 0; c1 && k < P.con->_wait.length(); ++k) if (c1[k].cmd) ++armed_after; }
+				if (complete_before && complete_after && armed_after && idlen && cb_after == cb_before && (r >= 0 || r == -4))
+					fail("no-reply", "sync (timeout %d) returns %d without having looked at the complete frame its read buffer already held (%zu request(s) outstanding)", timeout, r, armed_after);
+				if (complete_before && armed_before) st.hit("probe:sync_with_buffered_frame");
 				int64_t waited = simio::S.now_ms - t0;
 				log.ev("SYNC %s timeout=%d -> %d after %lld ms", P.name, timeout, r, (long long) waited); outcome = r >= 0; st.hit("probe:sync");
 				if (r == E_MissingBuffer) {
